@@ -191,4 +191,428 @@ theorem accumulate_eq_spec (vo : VOps V) (bo : BOps B) [DecidableEq B] (fs : Lis
     rw [q1]
     exact ⟨q2, q3, q4⟩
 
+/-! ### histograms: merged per bound, then cumulative; `_count` is the `+Inf` bucket -/
+
+theorem mem_bucketSeries (vo : VOps V) (bo : BOps B) [DecidableEq B] (mn : Str) (cs : List (Contrib V)) (L : Labels)
+    (hL : L ∈ groups (bucketContribs bo cs)) (kv : SKey × V) (h : kv ∈ groupSeries vo bo mn (bucketContribs bo cs) L) :
+    kv ∈ bucketSeries vo bo mn cs := by
+  unfold bucketSeries
+  exact List.mem_flatMap.mpr ⟨L, hL, h⟩
+
+/-- **histogram_merge_cumulative.**  For a histogram family, label set `L` and position `i` in `L`'s bounds sorted
+    increasingly: the reported `_bucket` sample with `le = floatToGoString(bound i)` is the sum of the merged counts of
+    the bounds up to and including position `i`, where the merged count of a bound (`Spec.merged`) is the sum over ALL
+    contributions — every process, dead or alive — to that `(L, bound)`. -/
+theorem histogram_merge_cumulative (vo : VOps V) (bo : BOps B) [DecidableEq B] (mn doc : Str) (mode : Option Str)
+    (cs : List (Contrib V)) (hty : ∀ c ∈ cs, c.typ ≠ gaugeType)
+    (hp : ∀ c ∈ cs, ∀ t, leText c = some t → (bo.parse t).isSome = true)
+    (hk : (AL.keys (bucketSeries vo bo mn cs)).Nodup)
+    (L : Labels) (hL : L ∈ groups (bucketContribs bo cs)) (i : Nat) (b : B) (m : V)
+    (hi : (mergedSorted vo bo (bucketContribs bo cs) L)[i]? = some (b, m)) :
+    ∃ ss, accumulateSamples vo bo ⟨mn, doc, histogramType, mode, cs.map toRSample⟩ = .ok ss ∧
+      AL.get? ss (mn ++ "_bucket".toList, L ++ [("le".toList, bo.fmt b)])
+        = some ((((mergedSorted vo bo (bucketContribs bo cs) L).take (i + 1)).map (·.2)).foldl vo.add vo.zero) := by
+  refine ⟨_, family_hist vo bo mn doc mode cs hty hp, ?_⟩
+  rw [AL.get?_setAll _ _ hk]
+  have hlen : i < (mergedSorted vo bo (bucketContribs bo cs) L).length := by
+    obtain ⟨h, _⟩ := List.getElem?_eq_some_iff.mp hi; exact h
+  have hv := cumulate_get vo vo.zero (mergedSorted vo bo (bucketContribs bo cs) L) i hlen
+  have hf := congrArg (fun l => l[i]?) (cumulate_fst vo vo.zero (mergedSorted vo bo (bucketContribs bo cs) L))
+  simp only [List.getElem?_map, hi, Option.map_some] at hf
+  cases hc : (cumulate vo vo.zero (mergedSorted vo bo (bucketContribs bo cs) L))[i]? with
+  | none => rw [hc] at hf; cases hf
+  | some bv =>
+    rw [hc] at hf hv
+    simp only [Option.map_some, Option.some.injEq] at hf hv
+    have hmem : ((mn ++ "_bucket".toList, L ++ [("le".toList, bo.fmt bv.1)]), bv.2)
+        ∈ groupSeries vo bo mn (bucketContribs bo cs) L := by
+      unfold groupSeries
+      apply List.mem_append_left
+      exact List.mem_map.mpr ⟨bv, List.mem_iff_getElem?.mpr ⟨i, hc⟩, rfl⟩
+    have := AL.get?_of_mem _ hk _ _ (mem_bucketSeries vo bo mn cs L hL _ hmem)
+    rw [hf] at this
+    rw [this, hv]
+
+/-- **count_eq_inf_bucket.**  `_count` of label set `L` is the grand total of the merged buckets, and it equals the
+    reported bucket of the greatest bound; when a bound `top` is above every other bound of `L` (`+Inf`), that is the
+    `le = floatToGoString(top)` bucket. -/
+theorem count_eq_inf_bucket (vo : VOps V) (bo : BOps B) [DecidableEq B] (mn doc : Str) (mode : Option Str)
+    (cs : List (Contrib V)) (hty : ∀ c ∈ cs, c.typ ≠ gaugeType)
+    (hp : ∀ c ∈ cs, ∀ t, leText c = some t → (bo.parse t).isSome = true)
+    (hk : (AL.keys (bucketSeries vo bo mn cs)).Nodup)
+    (L : Labels) (hL : L ∈ groups (bucketContribs bo cs)) (top : B)
+    (htop : top ∈ boundsOf (bucketContribs bo cs) L)
+    (hbelow : ∀ y ∈ boundsOf (bucketContribs bo cs) L, y ≠ top → bo.lt y top = true)
+    (habove : ∀ y ∈ boundsOf (bucketContribs bo cs) L, bo.lt top y = false) :
+    ∃ ss, accumulateSamples vo bo ⟨mn, doc, histogramType, mode, cs.map toRSample⟩ = .ok ss ∧
+      AL.get? ss (mn ++ "_count".toList, L) = some (countOf vo bo (bucketContribs bo cs) L) ∧
+      AL.get? ss (mn ++ "_bucket".toList, L ++ [("le".toList, bo.fmt top)]) = AL.get? ss (mn ++ "_count".toList, L) := by
+  refine ⟨_, family_hist vo bo mn doc mode cs hty hp, ?_⟩
+  rw [AL.get?_setAll _ _ hk, AL.get?_setAll _ _ hk]
+  have hcount : ((mn ++ "_count".toList, L), countOf vo bo (bucketContribs bo cs) L)
+      ∈ groupSeries vo bo mn (bucketContribs bo cs) L := by
+    unfold groupSeries
+    exact List.mem_append_right _ (List.mem_singleton.mpr rfl)
+  have h1 := AL.get?_of_mem _ hk _ _ (mem_bucketSeries vo bo mn cs L hL _ hcount)
+  have hlast := sortBounds_last bo.lt top (boundsOf (bucketContribs bo cs) L) htop (nodup_distinct _) hbelow habove
+  have hms : (mergedSorted vo bo (bucketContribs bo cs) L).getLast?
+      = some (top, merged vo (bucketContribs bo cs) L top) := by
+    unfold mergedSorted
+    rw [List.getLast?_map, hlast]; rfl
+  have hcl := cumulate_last vo vo.zero (mergedSorted vo bo (bucketContribs bo cs) L) _ hms
+  have hb : ((mn ++ "_bucket".toList, L ++ [("le".toList, bo.fmt top)]), countOf vo bo (bucketContribs bo cs) L)
+      ∈ groupSeries vo bo mn (bucketContribs bo cs) L := by
+    unfold groupSeries
+    apply List.mem_append_left
+    refine List.mem_map.mpr ⟨_, List.mem_of_getLast? hcl, rfl⟩
+  have h2 := AL.get?_of_mem _ hk _ _ (mem_bucketSeries vo bo mn cs L hL _ hb)
+  rw [h1, h2]
+  exact ⟨rfl, rfl⟩
+
+/-! ### gauges: what the reported value is -/
+
+/-- min / max / mostrecent: the reported value is extremal / most recent among the contributions to the series, for any
+    strict order that is irreflexive and transitive (IEEE `<` is, NaN included; so is `<` on `Int`).
+    Ties (equal values, `-0.0` vs `0.0`, equal set-times) are not decided by the statement. -/
+theorem gauge_value_declarative (vo : VOps V) (hirr : ∀ a, vo.lt a a = false)
+    (htr : ∀ a b c, vo.lt a b = true → vo.lt b c = true → vo.lt a c = true) (cs : List (Contrib V)) (k : SKey) (r : V) :
+    (gaugeValue vo .gaugeMin cs k = some r → IsMinimal vo.lt (valuesFor plainKey cs k) r) ∧
+    (gaugeValue vo .gaugeMax cs k = some r → IsMaximal vo.lt (valuesFor plainKey cs k) r) ∧
+    (gaugeValue vo .gaugeMostRecent cs k = some r →
+      IsMostRecent vo ((cs.filter (fun c => plainKey c = k)).map (fun c => (c.value, c.ts))) r) ∧
+    (gaugeValue vo .gaugeMostRecent cs k = none →
+      ∀ c ∈ cs, plainKey c = k → vo.lt vo.zero (normTs vo c.ts) = false) := by
+  refine ⟨aggMin_minimal vo hirr htr _ r, aggMax_maximal vo hirr htr _ r, ?_, ?_⟩
+  · exact (aggMostRecent_spec vo hirr htr _).1 r
+  · intro h c hc hk
+    exact (aggMostRecent_spec vo hirr htr _).2 h (c.value, c.ts)
+      (List.mem_map.mpr ⟨c, List.mem_filter.mpr ⟨hc, by simpa using hk⟩, rfl⟩)
+
+/-! ### no series dropped, none invented; labels come from the contributions -/
+
+theorem valuesFor_ne_nil (kf : Contrib V → SKey) (cs : List (Contrib V)) (k : SKey) :
+    valuesFor kf cs k ≠ [] ↔ ∃ c ∈ cs, kf c = k := by
+  unfold valuesFor
+  constructor
+  · intro h
+    cases hf : cs.filter (fun c => kf c = k) with
+    | nil => rw [hf] at h; exact absurd rfl h
+    | cons c r =>
+      have : c ∈ cs.filter (fun c => kf c = k) := hf ▸ List.mem_cons_self
+      have := List.mem_filter.mp this
+      exact ⟨c, this.1, by simpa using this.2⟩
+  · rintro ⟨c, hc, hk⟩ h
+    have : c ∈ cs.filter (fun c => kf c = k) := List.mem_filter.mpr ⟨hc, by simpa using hk⟩
+    have : c.value ∈ (cs.filter (fun c => kf c = k)).map (·.value) := List.mem_map.mpr ⟨c, this, rfl⟩
+    rw [h] at this; cases this
+
+/-- **help_labels_bounds_preserved** (with `accumulate_eq_spec`, which gives help text and type): a series has a value
+    exactly when some contribution belongs to it, and its name and label set are that contribution's — for sums
+    `(name, labels)`, for `all`/`liveall` gauges `labels + {pid}`, for `min`/`max`/`sum` gauges `(name, labels)`; a
+    mostrecent series exists only if some contribution to it has a positive set-time. -/
+theorem series_iff_contribution (vo : VOps V) (cs : List (Contrib V)) (k : SKey) :
+    ((sumValue vo cs k).isSome = true ↔ ∃ c ∈ cs, plainKey c = k) ∧
+    ((gaugeValue vo .gaugeMin cs k).isSome = true ↔ ∃ c ∈ cs, plainKey c = k) ∧
+    ((gaugeValue vo .gaugeMax cs k).isSome = true ↔ ∃ c ∈ cs, plainKey c = k) ∧
+    ((gaugeValue vo .gaugeSum cs k).isSome = true ↔ ∃ c ∈ cs, plainKey c = k) ∧
+    ((gaugeValue vo .gaugeAll cs k).isSome = true ↔ ∃ c ∈ cs, pidKey c = k) := by
+  have hs : (sumValue vo cs k).isSome = true ↔ ∃ c ∈ cs, plainKey c = k := by
+    rw [← valuesFor_ne_nil]
+    unfold sumValue
+    cases valuesFor plainKey cs k <;> simp
+  have hpick : ∀ better : V → V → Bool, (aggPick better (valuesFor plainKey cs k)).isSome = true ↔
+      ∃ c ∈ cs, plainKey c = k := by
+    intro better
+    rw [← valuesFor_ne_nil]
+    cases valuesFor plainKey cs k <;> simp [aggPick]
+  refine ⟨hs, hpick _, hpick _, hs, ?_⟩
+  rw [← valuesFor_ne_nil]
+  simp only [gaugeValue, aggLast]
+  cases h : valuesFor pidKey cs k with
+  | nil => simp
+  | cons v r =>
+    simp only [ne_eq, reduceCtorEq, not_false_eq_true, iff_true]
+    cases hl : (v :: r).getLast? with
+    | none => simp at hl
+    | some x => rfl
+
+theorem mem_bucketContribs (bo : BOps B) (cs : List (Contrib V)) (x : Labels × B × V) (hx : x ∈ bucketContribs bo cs) :
+    ∃ c ∈ cs, ∃ t b, leText c = some t ∧ bo.parse t = some b ∧ x = (withoutLe c, b, c.value) := by
+  unfold bucketContribs at hx
+  obtain ⟨c, hc, hcx⟩ := List.mem_filterMap.mp hx
+  cases ht : leText c with
+  | none => simp only [ht] at hcx; cases hcx
+  | some t =>
+    simp only [ht] at hcx
+    cases hb : bo.parse t with
+    | none => simp only [hb, Option.map_none] at hcx; cases hcx
+    | some b =>
+      simp only [hb, Option.map_some, Option.some.injEq] at hcx
+      exact ⟨c, hc, t, b, ht, hb, hcx.symm⟩
+
+/-- histogram series come from the contributions too: every bucket/count key carries a contributed label set (without
+    `le`) and, for buckets, `le = floatToGoString(b)` for a bound `b` some contribution's `le` text parses to — so if
+    `float(floatToGoString(b)) = b` (C13) the reported bound IS the contributed bound -/
+theorem bucket_series_from_contribution (vo : VOps V) (bo : BOps B) [DecidableEq B] (mn : Str) (cs : List (Contrib V))
+    (k : SKey) (hk : k ∈ AL.keys (bucketSeries vo bo mn cs)) :
+    ∃ c ∈ cs, ∃ t b, leText c = some t ∧ bo.parse t = some b ∧
+      ((k = (mn ++ "_count".toList, withoutLe c)) ∨
+       (∃ c' ∈ cs, ∃ t' b', leText c' = some t' ∧ bo.parse t' = some b' ∧ withoutLe c' = withoutLe c ∧
+          k = (mn ++ "_bucket".toList, withoutLe c ++ [("le".toList, bo.fmt b')]))) := by
+  unfold bucketSeries AL.keys at hk
+  obtain ⟨kv, hkv, rfl⟩ := List.mem_map.mp hk
+  obtain ⟨L, hL, hg⟩ := List.mem_flatMap.mp hkv
+  -- the group comes from a contribution
+  have hLc : ∃ c ∈ cs, ∃ t b, leText c = some t ∧ bo.parse t = some b ∧ withoutLe c = L := by
+    have := (mem_distinct _ _).mp hL
+    obtain ⟨x, hx, hx1⟩ := List.mem_map.mp this
+    obtain ⟨c, hc, t, b, ht, hb, e⟩ := mem_bucketContribs bo cs x hx
+    exact ⟨c, hc, t, b, ht, hb, by rw [← hx1, e]⟩
+  obtain ⟨c, hc, t, b, ht, hb, hcL⟩ := hLc
+  refine ⟨c, hc, t, b, ht, hb, ?_⟩
+  unfold groupSeries at hg
+  rcases List.mem_append.mp hg with h | h
+  · right
+    obtain ⟨bv, hbv, rfl⟩ := List.mem_map.mp h
+    have hfst : bv.1 ∈ (cumulate vo vo.zero (mergedSorted vo bo (bucketContribs bo cs) L)).map (·.1) :=
+      List.mem_map.mpr ⟨bv, hbv, rfl⟩
+    rw [cumulate_fst] at hfst
+    unfold mergedSorted at hfst
+    rw [List.map_map] at hfst
+    obtain ⟨b', hb', e⟩ := List.mem_map.mp hfst
+    simp only [Function.comp] at e
+    have hb2 := (mem_distinct _ _).mp ((mem_sortBounds _ _ _).mp hb')
+    obtain ⟨x, hx, hx1⟩ := List.mem_map.mp hb2
+    have hxm := List.mem_filter.mp hx
+    obtain ⟨c', hc', t', b'', ht', hbp, e'⟩ := mem_bucketContribs bo cs x hxm.1
+    have hxL : x.1 = L := by simpa using hxm.2
+    refine ⟨c', hc', t', b'', ht', hbp, ?_, ?_⟩
+    · rw [hcL, ← hxL, e']
+    · rw [hcL, ← e, ← hx1, e']
+  · left
+    simp only [List.mem_singleton] at h
+    rw [h, hcL]
+
+/-! ### `mark_process_dead` -/
+
+theorem baseName_inj_gauge (f : SFile V) (hf : WFFile f) (m pid : Str) (hm : '_' ∉ m) (hp : '_' ∉ pid) :
+    baseName f.typ f.mode f.pid = baseName gaugeType m pid ↔ f.typ = gaugeType ∧ f.mode = m ∧ f.pid = pid := by
+  constructor
+  · intro h
+    have hs := congrArg (splitChar splitSep) h
+    rw [split_gauge m pid hm hp] at hs
+    by_cases hg : f.typ = gaugeType
+    · rw [hg, split_gauge f.mode f.pid hf.mode_sep hf.pid_sep] at hs
+      simp only [List.cons.injEq, and_true, true_and] at hs
+      exact ⟨hg, hs.1, List.append_cancel_right hs.2⟩
+    · rw [split_other f.typ f.mode f.pid hg hf.typ_sep hf.pid_sep] at hs
+      simp at hs
+  · rintro ⟨h1, h2, h3⟩; rw [h1, h2, h3]
+
+theorem deadName_eq (m pid : Str) : deadName m pid = baseName gaugeType m pid := by
+  rw [baseName_gauge]
+  simp [deadName, deadNameParts, gaugeType]
+
+theorem liveModes_spec (m : Str) : m ∈ liveModes ↔ m ∈ gaugeModes ∧ "live".toList.isPrefixOf m = true := by
+  unfold liveModes
+  rw [List.mem_filter]
+  have : livePrefix = "live".toList := by decide
+  rw [this]
+
+theorem liveModes_no_sep : ∀ m ∈ liveModes, '_' ∉ m := by decide
+
+theorem dead_pred (f : SFile V) (hf : WFFile f) (pid : Str) (hp : '_' ∉ pid) :
+    liveModes.any (fun m => decide ((toFile f).basename = deadName m pid)) = true ↔
+      (f.typ = gaugeType ∧ f.mode ∈ liveModes ∧ f.pid = pid) := by
+  rw [List.any_eq_true]
+  constructor
+  · rintro ⟨m, hml, he⟩
+    have he' : baseName f.typ f.mode f.pid = deadName m pid := of_decide_eq_true he
+    rw [deadName_eq] at he'
+    obtain ⟨h1, h2, h3⟩ := (baseName_inj_gauge f hf m pid (liveModes_no_sep m hml) hp).mp he'
+    exact ⟨h1, h2 ▸ hml, h3⟩
+  · rintro ⟨h1, h2, h3⟩
+    refine ⟨f.mode, h2, decide_eq_true ?_⟩
+    show baseName f.typ f.mode f.pid = deadName f.mode pid
+    rw [deadName_eq, h1, h3]
+
+/-- **live_modes_ignore_dead.**  `mark_process_dead(pid)` removes exactly the files of gauges in a `live*` mode written
+    under `pid` and nothing else: afterwards the listing is `afterDeath pid` of the old one — every counter, summary,
+    histogram and non-live gauge file of the dead process is still there (so `accumulate_eq_spec` on the new listing
+    sums dead processes for those and ranges over live processes only for `live*` gauges). -/
+theorem live_modes_ignore_dead (pid : Str) (hp : '_' ∉ pid) (fs : List (SFile V)) (hf : ∀ f ∈ fs, WFFile f)
+    (hm : ∀ f ∈ fs, f.typ = gaugeType → f.mode ∈ gaugeModes) :
+    markProcessDead pid (fs.map toFile) = (afterDeath pid fs).map toFile := by
+  unfold markProcessDead afterDeath
+  rw [List.filter_map]
+  congr 1
+  apply List.filter_congr
+  intro f hfm
+  simp only [Function.comp]
+  congr 1
+  rw [Bool.eq_iff_iff, dead_pred f (hf f hfm) pid hp]
+  simp only [Bool.and_eq_true, decide_eq_true_eq]
+  have e : gaugeType = "gauge".toList := by decide
+  constructor
+  · rintro ⟨h1, h2, h3⟩
+    exact ⟨⟨e ▸ h1, ((liveModes_spec f.mode).mp h2).2⟩, h3⟩
+  · rintro ⟨⟨h1, h2⟩, h3⟩
+    have hg : f.typ = gaugeType := e ▸ h1
+    exact ⟨hg, (liveModes_spec f.mode).mpr ⟨hm f hfm hg, h2⟩, h3⟩
+
+theorem afterDeath_keeps (pid : Str) (fs : List (SFile V)) (f : SFile V) (hf : f ∈ fs)
+    (h : f.typ ≠ "gauge".toList ∨ "live".toList.isPrefixOf f.mode = false ∨ f.pid ≠ pid) : f ∈ afterDeath pid fs := by
+  unfold afterDeath
+  rw [List.mem_filter]
+  refine ⟨hf, ?_⟩
+  rcases h with h | h | h
+  · rw [decide_eq_false h]; rfl
+  · rw [h]; simp
+  · rw [decide_eq_false h]; simp
+
+/-! ### independence of the listing order -/
+
+theorem contribs_perm (fs fs' : List (SFile V)) (h : fs.Perm fs') (mn : Str) : (contribs fs mn).Perm (contribs fs' mn) := by
+  unfold contribs allContribs
+  exact (List.Perm.flatMap_right _ h).filter _
+
+/-- **accumulate_perm.**  In a commutative semigroup every value that is a SUM — counter, summary and plain histogram
+    series, `sum`/`livesum` gauges, and the merged count of every histogram bucket — does not depend on the order in
+    which the directory is listed; for `min`/`max` the set of admissible answers (`IsMinimal`/`IsMaximal`) does not. -/
+theorem accumulate_perm (vo : VOps V) (hcomm : ∀ a b, vo.add a b = vo.add b a)
+    (hassoc : ∀ a b c, vo.add (vo.add a b) c = vo.add a (vo.add b c))
+    (fs fs' : List (SFile V)) (h : fs.Perm fs') (mn : Str) (k : SKey) :
+    sumValue vo (contribs fs mn) k = sumValue vo (contribs fs' mn) k ∧
+    gaugeValue vo .gaugeSum (contribs fs mn) k = gaugeValue vo .gaugeSum (contribs fs' mn) k ∧
+    (∀ r, IsMinimal vo.lt (valuesFor plainKey (contribs fs mn) k) r ↔
+          IsMinimal vo.lt (valuesFor plainKey (contribs fs' mn) k) r) ∧
+    (∀ r, IsMaximal vo.lt (valuesFor plainKey (contribs fs mn) k) r ↔
+          IsMaximal vo.lt (valuesFor plainKey (contribs fs' mn) k) r) := by
+  have hp : (valuesFor plainKey (contribs fs mn) k).Perm (valuesFor plainKey (contribs fs' mn) k) := by
+    unfold valuesFor
+    exact ((contribs_perm fs fs' h mn).filter _).map _
+  have hs : sumValue vo (contribs fs mn) k = sumValue vo (contribs fs' mn) k := by
+    unfold sumValue
+    cases h1 : valuesFor plainKey (contribs fs mn) k with
+    | nil =>
+      rw [h1] at hp
+      rw [List.Perm.nil_eq hp]
+    | cons v r =>
+      cases h2 : valuesFor plainKey (contribs fs' mn) k with
+      | nil => rw [h1, h2] at hp; exact absurd hp.symm.nil_eq (by simp)
+      | cons v' r' =>
+        simp only
+        rw [← h1, ← h2, aggSum_perm vo hcomm hassoc _ _ hp]
+  refine ⟨hs, hs, ?_, ?_⟩
+  · intro r
+    unfold IsMinimal
+    constructor
+    · rintro ⟨h1, h2⟩; exact ⟨hp.mem_iff.mp h1, fun v hv => h2 v (hp.mem_iff.mpr hv)⟩
+    · rintro ⟨h1, h2⟩; exact ⟨hp.mem_iff.mpr h1, fun v hv => h2 v (hp.mem_iff.mp hv)⟩
+  · intro r
+    unfold IsMaximal
+    constructor
+    · rintro ⟨h1, h2⟩; exact ⟨hp.mem_iff.mp h1, fun v hv => h2 v (hp.mem_iff.mpr hv)⟩
+    · rintro ⟨h1, h2⟩; exact ⟨hp.mem_iff.mpr h1, fun v hv => h2 v (hp.mem_iff.mp hv)⟩
+
+/-- the merged count of a histogram bucket is order-independent as well -/
+theorem merged_perm (vo : VOps V) (bo : BOps B) [DecidableEq B] (hcomm : ∀ a b, vo.add a b = vo.add b a)
+    (hassoc : ∀ a b c, vo.add (vo.add a b) c = vo.add a (vo.add b c))
+    (fs fs' : List (SFile V)) (h : fs.Perm fs') (mn : Str) (L : Labels) (b : B) :
+    merged vo (bucketContribs bo (contribs fs mn)) L b = merged vo (bucketContribs bo (contribs fs' mn)) L b := by
+  unfold merged
+  apply aggSum_perm vo hcomm hassoc
+  unfold bucketContribs
+  exact (((contribs_perm fs fs' h mn).filterMap _).filter _).map _
+
+/-! ### non-vacuity, and the counter-example behind `no_pid_label` -/
+
+/-- `Int` values (a commutative monoid with a strict order), natural-number bounds written in decimal -/
+def intV : VOps Int := ⟨0, (· + ·), (fun a b => decide (a < b)), (fun a b => decide (a ≤ b)), (fun x => x != 0)⟩
+def natB : BOps Nat := ⟨fun s => some (parseDigits s), (fun a b => decide (a < b)), fun n => decDigits n⟩
+
+def kC : Key := ⟨"c".toList, "c_total".toList, [], "counts".toList⟩
+def kG : Key := ⟨"g".toList, "g".toList, [("l".toList, "x".toList)], "a gauge".toList⟩
+def kHb (le : String) : Key := ⟨"h".toList, "h_bucket".toList, [("le".toList, le.toList)], "a histogram".toList⟩
+def kHs : Key := ⟨"h".toList, "h_sum".toList, [], "a histogram".toList⟩
+
+/-- two processes; process 1 is listed first; a counter, a `livemin` gauge with a tie-free pair of values, and a
+    histogram whose bounds arrive in different orders in the two files -/
+def demoFiles : List (SFile Int) :=
+  [⟨"counter".toList, [], "1".toList, [(kC, 2, 0)]⟩,
+   ⟨"gauge".toList, "livemin".toList, "1".toList, [(kG, 5, 0)]⟩,
+   ⟨"histogram".toList, [], "1".toList, [(kHs, 7, 0), (kHb "1", 1, 0), (kHb "5", 2, 0), (kHb "100", 0, 0)]⟩,
+   ⟨"counter".toList, [], "2".toList, [(kC, 3, 0)]⟩,
+   ⟨"gauge".toList, "livemin".toList, "2".toList, [(kG, -1, 0)]⟩,
+   ⟨"histogram".toList, [], "2".toList, [(kHb "100", 4, 0), (kHs, 1, 0), (kHb "5", 1, 0), (kHb "1", 0, 0)]⟩]
+
+theorem demo_wf : WFInput natB demoFiles := by
+  refine ⟨?_, by decide, by decide, by decide, by decide, fun _ _ _ _ _ => rfl⟩
+  intro f hf
+  simp only [demoFiles, List.mem_cons, List.not_mem_nil, or_false] at hf
+  rcases hf with h | h | h | h | h | h <;> subst h <;> exact ⟨by decide, by decide, by decide, by decide⟩
+
+theorem typOf_mem (fs : List (SFile V)) (mn t : Str) (h : typOf fs mn = t) (ht : t ≠ []) :
+    ∃ c ∈ contribs fs mn, c.typ = t := by
+  unfold typOf at h
+  cases hc : contribs fs mn with
+  | nil => rw [hc] at h; simp at h; exact absurd h.symm ht
+  | cons c r => rw [hc] at h; simp at h; exact ⟨c, List.mem_cons_self, h⟩
+
+theorem demo_keys : ∀ mn, typOf demoFiles mn = histogramType →
+    (AL.keys (bucketSeries intV natB mn (contribs demoFiles mn))).Nodup := by
+  intro mn h
+  obtain ⟨c, hc, hct⟩ := typOf_mem demoFiles mn _ h (by decide)
+  have hm := mem_contribs hc
+  have : ∀ c ∈ allContribs demoFiles, c.typ = histogramType → c.key.metric = "h".toList := by decide
+  have e : mn = "h".toList := by rw [← hm.2]; exact this c hm.1 hct
+  subst e
+  decide
+
+/-- the hypotheses of `accumulate_eq_spec` are satisfiable by a non-trivial listing -/
+example : ∃ out, merge intV natB (demoFiles.map toFile) = .ok out ∧
+    out.map (·.name) = families demoFiles ∧ (families demoFiles).Nodup ∧
+    ∀ om ∈ out, om.doc = helpOf demoFiles om.name ∧ om.typ = typOf demoFiles om.name ∧
+      ∃ ss, om.samples = convert ss ∧ (AL.keys ss).Nodup ∧ ∀ k, AL.get? ss k = value intV natB demoFiles om.name k :=
+  accumulate_eq_spec intV natB demoFiles demo_wf demo_keys
+
+/-- … and what it computes there: counter 2+3, livemin min(5,-1), buckets 1|5|100 merged to 1|3|4 then cumulated to
+    1|4|8, `_count` 8, `_sum` 8 -/
+example : value intV natB demoFiles "c".toList ("c_total".toList, []) = some 5 := by decide
+example : value intV natB demoFiles "g".toList ("g".toList, [("l".toList, "x".toList)]) = some (-1) := by decide
+example : value intV natB demoFiles "h".toList ("h_bucket".toList, [("le".toList, "5".toList)]) = some 4 := by decide
+example : value intV natB demoFiles "h".toList ("h_bucket".toList, [("le".toList, "100".toList)]) = some 8 := by decide
+example : value intV natB demoFiles "h".toList ("h_count".toList, []) = some 8 := by decide
+example : value intV natB demoFiles "h".toList ("h_sum".toList, []) = some 8 := by decide
+/-- after process 2 is marked dead its `livemin` file is gone (min becomes 5) while its counter still counts -/
+example : value intV natB (afterDeath "2".toList demoFiles) "g".toList ("g".toList, [("l".toList, "x".toList)]) = some 5 := by
+  decide
+example : value intV natB (afterDeath "2".toList demoFiles) "c".toList ("c_total".toList, []) = some 5 := by decide
+/-- the `+Inf`-like bound 100 satisfies the hypotheses of `count_eq_inf_bucket` -/
+example : (100 : Nat) ∈ boundsOf (bucketContribs natB (contribs demoFiles "h".toList)) [] ∧
+    (∀ y ∈ boundsOf (bucketContribs natB (contribs demoFiles "h".toList)) [], y ≠ 100 → natB.lt y 100 = true) ∧
+    (∀ y ∈ boundsOf (bucketContribs natB (contribs demoFiles "h".toList)) [], natB.lt 100 y = false) := by decide
+/-- `Int` meets the order and monoid hypotheses of `gauge_value_declarative`, `accumulate_perm` -/
+example : (∀ a : Int, intV.lt a a = false) ∧ (∀ a b : Int, intV.add a b = intV.add b a) ∧
+    (∀ a b c : Int, intV.add (intV.add a b) c = intV.add a (intV.add b c)) :=
+  ⟨fun a => by simp [intV], fun a b => Int.add_comm a b, fun a b c => Int.add_assoc a b c⟩
+example : ∀ a b c : Int, intV.lt a b = true → intV.lt b c = true → intV.lt a c = true := by
+  intro a b c h1 h2
+  simp only [intV, decide_eq_true_eq] at *
+  omega
+
+/-- **the counter-example behind `no_pid_label`** (M exhibits the candidate finding): a gauge in mode `all` whose own
+    label is NAMED `pid`, two children in one process: the collector reports the same series `g{pid="1"}` twice (the
+    user's label value is overwritten by the process id) -/
+def pidDemo : List (SFile Int) :=
+  [⟨"gauge".toList, "all".toList, "1".toList,
+    [(⟨"g".toList, "g".toList, [("pid".toList, "a".toList)], "gh".toList⟩, 1, 0),
+     (⟨"g".toList, "g".toList, [("pid".toList, "b".toList)], "gh".toList⟩, 2, 0)]⟩]
+
+theorem pid_label_collides :
+    (match merge intV natB (pidDemo.map toFile) with
+      | .ok out => out.map (fun m => m.samples.map (fun s => (s.name, s.labels, s.value)))
+      | .error _ => [])
+    = [[("g".toList, [("pid".toList, "1".toList)], 1), ("g".toList, [("pid".toList, "1".toList)], 2)]] := by decide
+
 end PromVerif.Props.C08
